@@ -10,7 +10,7 @@ from eqsig import surface
 from eqsig.fns import time_shift as ts
 
 from pbt import gen
-from pbt.core import clause, HarnessError, TINY
+from pbt.core import clause, enum_clause, HarnessError, TINY
 from pbt.ref import surface as ref
 
 PROPERTY = "C19"
@@ -504,6 +504,78 @@ def laws(case, ctx):
             ctx.check(m >= su.n, "%s: single-travel-time series has %d < n samples" % (fn.__name__, m))
             bound = 2 * tols[i] if fn is surface.calc_surface_energy else 2 * tols[i] * (2 * length) + EPS * (length + 6) * float(batch[i][m - 1])
             ctx.close(batch[i][:m], s1[:m], bound, "%s: batch row %d vs single travel time %r" % (fn.__name__, i, su.tts[i]))
+
+
+# ---------------------------------------------------------------------------
+# very large batches (a site-response sweep: hundreds of travel times on a long record)
+
+
+def _huge_enum(tier, shard, nshards):
+    items = [{"n": 20000, "nq": 900, "red": "scalar", "nodal": True, "seed": 3}]
+    if tier != "quick":
+        items += [{"n": 20000, "nq": 900, "red": "array", "nodal": False, "seed": 4},
+                  {"n": 33000, "nq": 700, "red": "scalar", "nodal": False, "seed": 5},
+                  {"n": 9000, "nq": 2100, "red": "array", "nodal": True, "seed": 6},
+                  {"n": 20000, "nq": 900, "red": "default", "nodal": False, "seed": 7}]
+    for i, it in enumerate(items):
+        if i % nshards == shard:
+            yield it
+
+
+def _huge_case(c):
+    rs = np.random.RandomState(c["seed"])
+    q = rs.uniform(0.0, 400.0, c["nq"])
+    q[::3] = np.round(q[::3])            # a third whole-sample delays
+    q[1] = 0.0
+    case = {"rec": {"k": "quake", "n": c["n"], "seed": c["seed"]}, "dt": 0.01, "exact": False, "q": [float(x) for x in q],
+            "tt_as": "ndarray", "nodal": c["nodal"], "red": c["red"]}
+    if c["red"] == "scalar":
+        case["up"], case["down"] = 0.9, 0.8
+    elif c["red"] == "array":
+        case["up"] = [float(x) for x in rs.uniform(0.5, 1.0, c["nq"])]
+        case["down"] = [float(x) for x in rs.uniform(0.5, 1.0, c["nq"])]
+    return case
+
+
+@enum_clause(CLAUSES, "huge-batch", _huge_enum,
+             rule="fixed long records (9000-33000 samples) with 700-2100 travel times (delays 0..400 samples, a third whole), "
+                  "default / scalar / per-row reductions; 20 rows spread over the batch (first, last, every ~50th) are checked",
+             oracle="differential: batch row i == the single-travel-time call (2 tol_E); reference model for four of the rows",
+             exhaustive_note="the listed batches", quick_shards=1)
+def huge_batch(c, ctx):
+    case = _huge_case(c)
+    su = _Setup(case, ctx)
+    ctx.nt(True)
+    tt = su.tt_arg(case)
+    kw = dict(su.red_kwargs(), nodal=su.nodal)
+    e = _as_rows(ctx, su, ctx.lib(surface.calc_surface_energy, su.asig, tt, **kw), "calc_surface_energy", False)
+    length = e.shape[1]
+    ctx.check(length in su.length_cands(), "huge batch: series length %d, expected %s" % (length, sorted(su.length_cands())))
+    nq = su.nt
+    picks = sorted(set([0, 1, 2, nq // 2, nq - 3, nq - 2, nq - 1] + list(range(7, nq, max(1, nq // 14)))))
+    for i in picks:
+        skw = {"nodal": su.nodal}
+        if su.mode == "array":
+            skw.update(up_red=np.array([su.ur[i]]), down_red=np.array([su.dr[i]]))
+        elif su.mode == "scalar":
+            skw.update(up_red=su.ur[i], down_red=su.dr[i])
+        s1 = np.asarray(ctx.lib(surface.calc_surface_energy, su.asig, su.tts[i], **skw))
+        if s1.ndim == 2 and s1.shape[0] == 1:
+            s1 = s1[0]
+        m = min(len(s1), length)
+        ctx.check(m >= su.n, "single-travel-time series has %d < n samples" % m)
+        ctx.close(e[i][:m], s1[:m], 2 * su.row_scale_tol(i, e[i]), "huge batch (%d x %d): row %d vs single travel time %r" % (
+            nq, su.n, i, su.tts[i]))
+    # four rows against the definition
+    for i in (picks[0], picks[len(picks) // 2], picks[-2], picks[-1]):
+        row = su.rows[i]
+        ok = False
+        for variant in row.variants:
+            x, tol = su.series(i, variant, max(2, length))["e"]
+            if np.all(np.abs(e[i].astype(LD) - x[:length]) <= tol[:length] + TINY):
+                ok = True
+                break
+        ctx.check(ok, "huge batch: row %d (delay %r samples) does not match the shifted-wave definition" % (i, row.s))
 
 
 # ---------------------------------------------------------------------------
